@@ -316,6 +316,9 @@ def _num(draw, model, env, depth):
         return ["const", v[0], v[1]], v[1]
 
     a, ta = operand()
+    if draw(st.integers(0, 7)) == 0:
+        # a sign in front of one operand: -x / +x of an int is an int, of a float a float, of a bool an int (python: -True == -1)
+        return ["neg", draw(st.sampled_from(["-", "+", "-"])), a], (["int"] if ta == ["bool"] else ta)
     b, tb = operand()
     if ta == ["bool"] and tb != ["bool"] and draw(st.booleans()):
         b, tb = draw(_bool(model, env, max(depth - 1, 0))), ["bool"]  # both operands bool
@@ -332,6 +335,11 @@ def _num(draw, model, env, depth):
 @st.composite
 def _bool(draw, model, env, depth):
     c = draw(st.integers(0, 5))
+    if depth > 0 and draw(st.integers(0, 6)) == 0:
+        # `not x` is a truth value whatever x is (a bool expression, a number, an object)
+        if draw(st.booleans()):
+            return ["not", draw(_bool(model, env, depth - 1))]
+        return ["not", draw(_expr(model, env, depth - 1))[0] if draw(st.booleans()) else draw(_num(model, env, depth - 1))[0]]
     if c <= 2 or depth <= 0:
         a, _ = draw(_num(model, env, depth - 1)) if draw(st.booleans()) else draw(_expr(model, env, max(depth - 1, 0)))
         b, _ = draw(_num(model, env, 0))
@@ -448,6 +456,10 @@ def render(e):
         return f"({render(e[2])} {e[1]} {render(e[3])})"
     if k == "bool":
         return f"({render(e[2])} {e[1]} {render(e[3])})"
+    if k == "not":
+        return f"(not {render(e[1])})"
+    if k == "neg":
+        return f"({e[1]}{render(e[2])})"
     if k == "dict":
         return "{" + ", ".join(f"'{kk}': {render(v)}" for kk, v in e[1]) + "}"
     if k == "dictx":
@@ -625,8 +637,11 @@ def expected_types(case):
             return elem_of(ty(e[1], env))
         if k in ("count", "len"):
             return ["int"]
-        if k in ("cmp", "bool"):
+        if k in ("cmp", "bool", "not"):
             return ["bool"]
+        if k == "neg":
+            t = ty(e[2], env)
+            return ["int"] if t == ["bool"] else t
         if k == "num":
             ta, tb = ty(e[2], env), ty(e[3], env)
             if ta == ["any"] or tb == ["any"]:
